@@ -13,8 +13,13 @@ fn is_seal(t: u16) -> bool {
     t == T_MI || t == T_SHA || t == T_FP
 }
 
-fn tail_rule<const N: usize>() {
+/// `part`: 0 = all buffers; 1 / 2 = the buffers whose first attribute is / is not a seal attribute
+/// (a two-way case split of the same claim, so that each solver query stays well inside the
+/// 900 s budget of the quick tier; the split is decided from the raw bytes before parsing)
+fn tail_rule<const N: usize>(part: u8) {
     prelude!(N, buf, len, probe, q, data, res, r);
+    let first_is_seal = len >= 24 && is_seal(((buf[20] as u16) << 8) | buf[21] as u16);
+    kani::assume(part == 0 || (part == 1) == first_is_seal);
     if let Ok(msg) = &res {
         if r.verdict == Verdict::Accept {
             // first seal attribute; everything before it is ordinary
@@ -73,10 +78,10 @@ fn tail_rule<const N: usize>() {
                 k += 1;
             }
             assert!(it.next().is_none(), "C10:unauthenticated-attribute-exposed");
-            kani::cover!(tl == 3 && t0 == T_MI);
-            kani::cover!(tl == 3 && t0 == T_SHA && s == 0);
-            kani::cover!(tl == 2 && t0 == T_SHA && t1 == T_MI);
-            kani::cover!(tl == 2 && s >= 1 && t1 == T_FP);
+            kani::cover!(part == 2 || (tl == 3 && t0 == T_MI));
+            kani::cover!(part == 2 || (tl == 3 && t0 == T_SHA && s == 0));
+            kani::cover!(part == 2 || (tl == 2 && t0 == T_SHA && t1 == T_MI));
+            kani::cover!(part == 1 || (tl == 2 && s >= 1 && t1 == T_FP));
         }
     }
 }
@@ -85,14 +90,28 @@ fn tail_rule<const N: usize>() {
 #[kani::unwind(6)]
 #[kani::stub(stun_types::attribute::Fingerprint::compute, crc_stub)]
 fn c10_tail_36() {
-    tail_rule::<36>();
+    tail_rule::<36>(0);
+}
+
+#[kani::proof]
+#[kani::unwind(6)]
+#[kani::stub(stun_types::attribute::Fingerprint::compute, crc_stub)]
+fn c10_tail_36_seal_first() {
+    tail_rule::<36>(1);
+}
+
+#[kani::proof]
+#[kani::unwind(6)]
+#[kani::stub(stun_types::attribute::Fingerprint::compute, crc_stub)]
+fn c10_tail_36_ordinary_first() {
+    tail_rule::<36>(2);
 }
 
 #[kani::proof]
 #[kani::unwind(7)]
 #[kani::stub(stun_types::attribute::Fingerprint::compute, crc_stub)]
 fn c10_tail_40() {
-    tail_rule::<40>();
+    tail_rule::<40>(0);
 }
 
 /// b[i] = a[i] for i < cut except the length field (own function: its loop gets its own unwind
